@@ -452,7 +452,11 @@ def run_history(drv, case: dict, *, terminal=None, stop_on_first: bool = False) 
                         s.trace.hook = hook
                     try:
                         if terminal is not None:
-                            inst = terminal.assign_id(d, cols=1, rows=1, id_space=s.space(sp), id_subspace=s.sub(su))
+                            sp_arg, su_arg = s.space(sp), s.sub(su)
+                            if op.get("strform"):
+                                # the textual forms the configuration layers and the CLI use (`str(IDSpace)`, "begin:end")
+                                sp_arg, su_arg = str(sp_arg), str(su_arg)
+                            inst = terminal.assign_id(d, cols=1, rows=1, id_space=sp_arg, id_subspace=su_arg)
                             rid = inst.id
                             d = inst.get_description()
                         else:
